@@ -40,8 +40,11 @@ FLOORS = {
 CASE_TIMEOUT = {"quick": 90, "thorough": 180}
 SIZES = {"quick": 600, "thorough": 10000}
 KINDS = ("relabel", "relabel", "redundant", "repack", "repack", "same", "unrelated", "near", "near", "onesided",
-         "onesided", "onesided", "onesided")
+         "onesided", "onesided", "onesided", "symne", "symne")
 
+
+# experiment knob (never set by the registered commands): restrict the generated pair kinds
+ONLY_KINDS = tuple(k for k in __import__("os").environ.get("VERIF_C13_KINDS", "").split(",") if k)
 
 _LAST_SECOND_SEARCH = {}
 
@@ -108,13 +111,28 @@ def unmatched_descendants():
     return False
 
 
+def corpus_cases():
+    """Mined inputs (tools/mine_c13.py) on which the equivalence-path verdict of the second
+    search depends on the context it is asked from; replayed in both tiers, every seed."""
+    import json
+    import os
+
+    path = os.path.join(os.path.dirname(os.path.dirname(os.path.abspath(__file__))), "corpus", "c13_context.json")
+    with open(path) as f:
+        return json.load(f)
+
+
 def gen_cases(tier, seed):
     i = 0
     produced = 0
+    if not ONLY_KINDS:
+        for c in corpus_cases():
+            yield dict(c, id=produced, variant="eqpath", N=N[tier])
+            produced += 1
     while produced < SIZES[tier]:
         rng = intuniv.rng_for(seed, "C13", i)
         i += 1
-        kind = rng.choice(KINDS)
+        kind = rng.choice(ONLY_KINDS or KINDS)
         c1 = gen.rand_class(rng, max_alpha=2 if rng.random() < 0.85 else 3, max_stats=rng.choice((0, 0, 1)), bytes_p=0)
         if rw.is_empty(c1):
             continue
@@ -153,6 +171,18 @@ def gen_cases(tier, seed):
             p2 = dict(p1, sym=False)
             if rng.random() < 0.5:
                 c1, p1, c2, p2 = c2, p2, c1, p1
+        elif kind == "symne":
+            # every class shares its label with its mirror image through a two-way rule that is
+            # not an equivalence, both images are expanded: the parents of a label reach it
+            # through either image, and the two sides choose independently
+            p1 = dict(p1, sym="ne", factory=None)
+            p1["inferral"] = [x for x in p1["inferral"] if x != "minimise_ne"]
+            c2 = c12.relabel(c1, rng) if rng.random() < 0.3 else dict(c1)
+            p2 = dict(p1, sym=rng.choice(("ne", "ne", True, False, False, False)))
+            if rng.random() < 0.25:
+                p2 = dict(c12.atom_pack(rng), sym=p2["sym"])
+            if rng.random() < 0.5:
+                c1, p1, c2, p2 = c2, p2, c1, p1
         elif kind == "relabel":
             c2, p2 = c12.relabel(c1, rng), dict(p1)
         elif kind == "redundant":
@@ -172,7 +202,7 @@ def gen_cases(tier, seed):
             if rw.is_empty(c2):
                 continue
         variant = rng.choice(("plain", "eqpath"))
-        if "minimise_ne" in p1["inferral"] or "minimise_ne" in p2.get("inferral", ()):
+        if "minimise_ne" in p1["inferral"] or "minimise_ne" in p2.get("inferral", ()) or "ne" in (p1["sym"], p2["sym"]):
             # ParallelSpecFinder documents that it assumes classes sharing an equivalence label
             # to be equivalent; only the equivalence-path variant is well-formed here
             variant = "eqpath"
